@@ -634,6 +634,23 @@ def mpz_comV (V : Variant) (dst src : Nat) (s : St) : R St := do
 
 def mpz_com := mpz_comV .c
 
+/-! ## mpz_neg, mpz_abs -/
+
+/-- mpz_neg (`isAbs = false`, neg.c:33-48) and mpz_abs (`isAbs = true`, abs.c:33-46): `if (u != w)` copy — realloc, THEN
+    the two pointers — else only the size field is written. -/
+def mpz_negabs (isAbs : Bool) (w u : Nat) (s : St) : R St := do
+  let usize := s.size u                                       -- neg.c:33
+  let s ← (if u ≠ w then do                                   -- :35
+      let size := usize.natAbs                                -- :37
+      let s := s.mpzRealloc w size                            -- :39-40
+      let up ← s.load (s.ptr u) size                          -- :42-45
+      s.store (s.ptr w) up
+    else pure s)
+  pure (s.setSize w (if isAbs then (usize.natAbs : Int) else -usize))     -- :48
+
+def mpz_neg := mpz_negabs false
+def mpz_abs := mpz_negabs true
+
 /-! ## building a state from values (driver, examples) -/
 
 /-- variables `0 … k-1` holding `zs` in exact-size blocks (the harness's `tok_mpz`) -/
